@@ -23,15 +23,15 @@ CFG = {
         "result holds a bitset chunk": r"^dump b1 => .* nb=[1-9]",
     },
     "gaps": [
-        "the full statement (C18_statement) is NOT proved; it needs the container-level `&=` lemmas of the algebra family (Container.andAssignRef) and C06's chunk lemmas",
-        'proved: C18_no_panic_release_partial (no panic for every operand and every byte string when debug assertions are off), C18_header_error_partial (an early end / invalid cookie inside the header is returned as that error, every build), C18_empty_left_partial (offset path, empty left operand), C18_header_cursor (the cursor reads the header exactly as the slice reader)',
-        "until then the property rests on the correspondence (conformant streams of every shape, truncations, D7 reproducer) and the driver's run-time cross-check elems(result) = a ∩ Spec.decode(s)",
+        'no proof gap: the full statement is proved (C18 : C18_statement): for Bitmap.WF a and every byte string accepted by Spec.decode with set S, interSer dbg a bs = ok r with Bitmap.WF r and elems r = Spec.sAnd (elems a) S (C18_value), in both build configurations, on both paths (offset table with seeks / sequential with skipping), for array / bitset / run chunks (run chunks are not normalised before the &=: Store.andAssignRef_spec needs only the structural invariant); C18_serialize: the instance for the crate\'s own serialisations (via C05_conformant)',
+        'truncation: C18_trunc_any - for EVERY operand, byte string and cut, debug assertions on or off, the truncated call fails with UnexpectedEof or does exactly what the full call does; hence C18_trunc: for conformant streams an EOF error or the correct value, never a panic, never a different value',
+        'also for arbitrary byte strings: C18_no_panic_release, C18_header_error, C18_empty_left, C18_header_cursor',
         'descrSearch models binary_search only on key-sorted descriptions (all conformant streams)',
     ],
     "level_text": "Lean model of both paths of intersection_with_serialized_unchecked over a seekable cursor, with theorems for "
-                  "the header skeleton; result compared at run time with a ∩ Spec.decode(s) (independent reference decoder) "
+                  "the value on every conformant stream and for every truncation; result also compared at run time with a ∩ Spec.decode(s) (independent reference decoder) "
                   "and tied to the Rust source by differential correspondence incl. truncated streams.",
     "level_note": "Trusted: Lean kernel; SpecCodec.lean; model mirrors ops_with_serialized.rs (correspondence only); "
                   "io::Cursor modelled as (data, pos) with seek-past-end allowed; binary_search over descriptions modelled "
-                  "for key-sorted descriptions (all conformant streams). Mostly correspondence-level: see proof_gaps.",
+                  "for key-sorted descriptions (all conformant streams).",
 }
